@@ -22,7 +22,11 @@ def _job(item):
                                 solver_timeout_ms=o["solver_timeout_ms"], skeleton_budget_s=o["skeleton_budget_s"])
     t0 = time.time()
     try:
-        fs = ck.check(skel) if variant is None else driver.check_pair(ck, skel, variant)
+        if isinstance(skel, list):
+            from . import session
+            fs = session.check_session(ck, skel)
+        else:
+            fs = ck.check(skel) if variant is None else driver.check_pair(ck, skel, variant)
     except Exception as e:  # machinery failure: reported, never a pass
         import traceback
         return {"name": name, "skel": skel, "error": "%r\n%s" % (e, traceback.format_exc()[-1500:]), "stats": ck.stats, "findings": [], "samples": []}
@@ -30,13 +34,19 @@ def _job(item):
     seen = set()
     for f in fs:
         key = (f.kind, ''.join(c for c in f.detail if not c.isdigit())[:80])
+        if f.kind == "session" and "not a function entry of this code" in f.detail:
+            f.role = "session:function-value-of-earlier-line"
+            key = (f.kind, f.role)
         if key in seen:
             continue
         seen.add(key)
         if len(out) >= 6:
             break
         try:
-            if variant is None:
+            if isinstance(skel, list):
+                from . import session
+                session.confirm_session(nat, f)
+            elif variant is None:
                 driver.confirm(nat, f, profiles=("dev", "release"))
             else:
                 driver.confirm_pair(nat, f)
